@@ -2079,6 +2079,9 @@ impl<'a, 'b, W: Write> SerializeMap for MapSer<'a, 'b, W> {
                 self.ser.out.write_str(", ")?;
             }
             let text = scalar_key_to_string(key, self.ser.yaml_12)?;
+            if text.chars().count() > MAX_IMPLICIT_KEY_CHARS {
+                self.ser.out.write_str("? ")?;
+            }
             self.ser.out.write_str(&text)?;
             self.ser.out.write_str(": ")?;
             self.ser.at_line_start = false;
@@ -2104,6 +2107,24 @@ impl<'a, 'b, W: Write> SerializeMap for MapSer<'a, 'b, W> {
             self.ser.pending_inline_map = false;
 
             match scalar_key_to_string(key, self.ser.yaml_12) {
+                Ok(text) if text.chars().count() > MAX_IMPLICIT_KEY_CHARS => {
+                    // YAML limits implicit (`key: value`) keys to 1024 characters: a longer
+                    // key has to use the explicit `? key` / `: value` form.
+                    if self.align_after_dash && self.ser.at_line_start {
+                        let base = self.depth.saturating_sub(1);
+                        for _ in 0..self.ser.indent_step * base {
+                            self.ser.out.write_char(' ')?;
+                        }
+                        self.ser.out.write_str("  ")?; // width of "- "
+                        self.ser.at_line_start = false;
+                    } else {
+                        self.ser.write_indent(self.depth)?;
+                    }
+                    self.ser.out.write_str("? ")?;
+                    self.ser.out.write_str(&text)?;
+                    self.ser.newline()?;
+                    self.last_key_complex = true;
+                }
                 Ok(text) => {
                     // Indent continuation lines. If this map started inline after a dash,
                     // align under the first key by adding two spaces instead of a full indent step.
@@ -2759,6 +2780,10 @@ impl StrCapture {
 // ------------------------------------------------------------
 // Key scalar helper
 // ------------------------------------------------------------
+
+/// Longest key (in characters, quotes included) that is still written in the implicit
+/// `key: value` form; YAML parsers reject implicit keys beyond 1024 characters.
+const MAX_IMPLICIT_KEY_CHARS: usize = 1000;
 
 /// Serialize a key using a restricted scalar-only serializer into a `String`.
 ///
